@@ -81,5 +81,15 @@ pub fn run(ctx: &Ctx) -> i32 {
         }
         bad += rep.violations.len();
     }
+    // (5) rollback under readers
+    {
+        let s = MdkMemoryStorage::default();
+        let rep = run_rollback_readers(&s, &u, 6, 2, seed);
+        println!("MIRI rollback-readers ops={} violations={}", rep.histories_ops, rep.violations.len());
+        for v in rep.violations.iter().take(5) {
+            println!("MIRI-VIOLATION {} :: {}", v.0, v.1);
+        }
+        bad += rep.violations.len();
+    }
     if bad > 0 { 1 } else { 0 }
 }
